@@ -78,3 +78,48 @@ func Harness_C16_projection_reversal() {
 	vr.Assert("reversing the edge leaves the error bound unchanged", f == e)
 	vr.Reach("end")
 }
+
+// (Not registered: every query of this harness came back unknown within 60 s on all back ends.)
+// The rest of the stable path on top of that step.  projection is replaced by an arbitrary
+// function with exactly the contract established by Harness_C16_projection_reversal
+// (uninterpreted on the edge oriented with its lexicographically smaller endpoint first,
+// negated for the other orientation; the error bound does not depend on the orientation).
+// Then reversing either edge negates the interpolated vector exactly, leaves the accept /
+// reject decision unchanged, and after the final hemisphere test of Intersection the same
+// point is returned.
+func vrstub_C16_projection(x, n r3.Vector, nl float64, a0, a1 Point) (float64, float64) {
+	flip := a0.Cmp(a1.Vector) > 0
+	if flip {
+		a0, a1 = a1, a0
+		n = r3.Vector{X: -n.X, Y: -n.Y, Z: -n.Z}
+	}
+	h := vr.UFF9("projh", x.X, x.Y, x.Z, n.X, n.Y, n.Z, nl, 0, 0)
+	p := vr.UFF9("proj", a0.X, a0.Y, a0.Z, a1.X, a1.Y, a1.Z, h, 0, 0)
+	e := vr.UFF9("projerr", a0.X, a0.Y, a0.Z, a1.X, a1.Y, a1.Z, h, 1, 0)
+	vr.Assume(e >= 0)
+	if flip {
+		p = -p
+	}
+	return p, e
+}
+
+func vrTODO_C16_stable_path_reversal() {
+	vr.Domain("RUF")
+	a0, a1, b0, b1 := vrBoundedPoint("a0"), vrBoundedPoint("a1"), vrBoundedPoint("b0"), vrBoundedPoint("b1")
+	vr.Assume(vr.And(a0 != a1, b0 != b1))
+	if vr.Symbolic() {
+		vr.Stub("projection", "vrstub_C16_projection")
+	}
+	neg := func(u, v Point) bool { return vr.And(vr.And(u.X == -v.X, u.Y == -v.Y), u.Z == -v.Z) }
+	p, ok := intersectionStableSorted(a0, a1, b0, b1)
+	if vr.Choose("which", 0, 1) == 0 {
+		q, okq := intersectionStableSorted(a1, a0, b0, b1)
+		vr.Assert("reversing the first edge does not change whether the stable result is accepted", okq == ok)
+		vr.Assert("reversing the first edge negates the stable result exactly", vr.Implies(ok, neg(q, p)))
+	} else {
+		r, okr := intersectionStableSorted(a0, a1, b1, b0)
+		vr.Assert("reversing the second edge does not change whether the stable result is accepted", okr == ok)
+		vr.Assert("reversing the second edge negates the stable result exactly", vr.Implies(ok, neg(r, p)))
+	}
+	vr.Reach("end")
+}
